@@ -520,7 +520,14 @@ func runAlloc(t *testing.T, s *Scenario) []wire.Event {
 	// every block start handed out in it. G*N*M < 65536: all blocks of a round are live together.
 	if st, ok := s.Extra["stress"].(map[string]any); ok {
 		g, n, m, rounds := int(st["g"].(float64)), int(st["n"].(float64)), int(st["m"].(float64)), int(st["rounds"].(float64))
+		resetBase := -1
+		if v, ok := st["reset_base"].(float64); ok {
+			resetBase = int(v)
+		}
 		for r := 0; r < rounds; r++ {
+			if resetBase >= 0 { // every round starts just below the 16-bit rollover: all callers meet at the wrap
+				packets.VerifSetPacketIDBase(uint32(resetBase))
+			}
 			got := make([][]int, g)
 			gate := make(chan struct{})
 			var wg2 sync.WaitGroup
